@@ -16,6 +16,7 @@ import (
 	"runtime"
 	"runtime/debug"
 	"sort"
+	"strings"
 	"testing"
 
 	"jetverif/core"
@@ -26,9 +27,16 @@ import (
 	"pgregory.net/rapid"
 )
 
+// data with a field promoted through an embedded pointer (nil or not)
+type c10PEmb struct{ PName string }
+type c10Emb struct {
+	*c10PEmb
+	Name string
+}
+
 type c10Call struct {
 	Entry string `json:"entry"`
-	Data  int    `json:"data"` // 0 nil, 1 string, 2 map
+	Data  int    `json:"data"` // 0 nil, 1 string, 2 map, 3 struct with embedded pointer, 4 same with a nil embedded pointer
 	Vars  int    `json:"vars"` // 0 nil VarMap, 1 VarMap with values
 }
 
@@ -51,7 +59,7 @@ func genC10(t *rapid.T) c10Case {
 	n := rapid.IntRange(3, 8).Draw(t, "ntemplates")
 	for i := 0; i < n; i++ {
 		path := fmt.Sprintf("/t%d.jet", i)
-		kind := rapid.SampledFrom([]string{"ordinary", "failing", "failing", "probing", "probing"}).Draw(t, "kind")
+		kind := rapid.SampledFrom([]string{"ordinary", "failing", "failing", "probing", "probing", "embprobe"}).Draw(t, "kind")
 		var body []*mj.Node
 		rt := mj.Print(mj.Call("rtprobe"))
 		switch kind {
@@ -59,12 +67,21 @@ func genC10(t *rapid.T) c10Case {
 			body = g.path(rapid.IntRange(0, 3).Draw(t, "depth"), []*mj.Node{mj.Text("fine"), mj.Let(g.id("ov"), mj.Str("o"))})
 		case "failing":
 			depth := rapid.IntRange(1, 4).Draw(t, "fdepth")
-			inner := []*mj.Node{mj.Text("reached"), g.failure(), mj.Text("never")}
+			fail := g.failure()
+			if rapid.IntRange(0, 5).Draw(t, "rtpanic") == 0 {
+				// the failure is a Go runtime error inside a user function: Execute re-panics it (documented)
+				fail = &mj.Node{K: "fail", Src: "rtpanicfn()", Class: "runtime-panic"}
+				g.labels["failure:runtime-panic"] = true
+			}
+			inner := []*mj.Node{mj.Text("reached"), fail, mj.Text("never")}
 			if rapid.IntRange(0, 3).Draw(t, "caught") == 0 {
 				// the failure happens inside a try that handles it: must leave no residue either
 				inner = []*mj.Node{{K: "try", Body: g.path(1, inner), HasCatch: true, Catch: []*mj.Node{mj.Text("(caught)")}}}
 			}
 			body = g.path(depth, inner)
+		case "embprobe":
+			// a field promoted through an embedded pointer: value, or an error when the pointer is nil
+			body = []*mj.Node{mj.Text("[emb:"), mj.Print(mj.Field("PName")), mj.Text("|"), mj.Print(mj.Field("Name")), mj.Text("]")}
 		default:
 			body = []*mj.Node{mj.Text("[probe content:"), {K: "ycontent"}, mj.Text("|.="), mj.Print(mj.Dot()), mj.Text("|")}
 			for _, d := range g.decls {
@@ -86,7 +103,7 @@ func genC10(t *rapid.T) c10Case {
 	for i := 0; i < ncalls; i++ {
 		c.Calls = append(c.Calls, c10Call{
 			Entry: fmt.Sprintf("/t%d.jet", rapid.IntRange(0, n-1).Draw(t, "entry")),
-			Data:  rapid.IntRange(0, 2).Draw(t, "data"),
+			Data:  rapid.IntRange(0, 4).Draw(t, "data"),
 			Vars:  rapid.IntRange(0, 1).Draw(t, "vars"),
 		})
 	}
@@ -203,14 +220,10 @@ func judgeC10(c c10Case) (v core.Verdict) {
 		tpls[f.Path] = t
 		hashes[f.Path] = hashTemplate(t)
 	}
+	// the data values are built once: some templates print '.', and pointers print as addresses
+	datas := []interface{}{nil, "D1", map[string]interface{}{"k": "D2"}, &c10Emb{c10PEmb: &c10PEmb{PName: "promoted"}, Name: "emb"}, &c10Emb{Name: "emb-nil"}}
 	exec := func(call c10Call) jetrun.Outcome {
-		var data interface{}
-		switch call.Data {
-		case 1:
-			data = "D1"
-		case 2:
-			data = map[string]interface{}{"k": "D2"}
-		}
+		data := datas[call.Data]
 		var vars jet.VarMap
 		if call.Vars == 1 {
 			vars = jet.VarMap{}
@@ -272,8 +285,17 @@ func judgeC10(c c10Case) (v core.Verdict) {
 	for i := range c.Calls {
 		w, g := want[i], got[i]
 		if g.Panicked || w.Panicked {
-			v.Failf("%s: Execute panicked (in history: %v %s; on fresh state: %v %s)", desc(i), g.Panicked, g.PanicVal, w.Panicked, w.PanicVal)
-			return
+			// only a Go runtime error raised by the user function rtpanicfn may (and must, both times) escape as a panic
+			intended := strings.Contains(g.PanicVal+w.PanicVal, "assignment to entry in nil map")
+			if !intended || g.Panicked != w.Panicked {
+				v.Failf("%s: Execute panicked (in history: %v %s; on fresh state: %v %s)", desc(i), g.Panicked, g.PanicVal, w.Panicked, w.PanicVal)
+				return
+			}
+			if w.Out != g.Out {
+				v.Failf("%s: output before the panic depends on what ran before: %q vs %q", desc(i), w.Out, g.Out)
+				return
+			}
+			continue
 		}
 		if (w.Err == nil) != (g.Err == nil) {
 			v.Failf("%s: on fresh state err=%v, inside the history err=%v", desc(i), w.Err, g.Err)
@@ -300,7 +322,7 @@ func judgeC10(c c10Case) (v core.Verdict) {
 	}
 	// second opinion: the reference interpreter, where it is defined
 	for i, call := range c.Calls {
-		if want[i].Err != nil || call.Vars == 1 {
+		if want[i].Err != nil || want[i].Panicked || call.Vars == 1 || call.Data >= 3 {
 			continue
 		}
 		p := *c.Prog
